@@ -180,16 +180,96 @@ fn main() {
 /// Run `worker` in a child process. Exit codes 0/1/2 pass through. Death by signal is localised
 /// through the slot file, reproduced in a fresh child, and reported as `<ID>.abort` against the property
 /// being checked: the library neither returned what the property demands nor rejected the input.
+/// A run that does not terminate: confirm by replaying the case in a fresh child under a time limit, then report it
+/// against the property being checked (`<ID>.hang`) — the library neither answered nor rejected.
+fn report_hang(id: &str, exe: &std::path::Path, stalled: &[(usize, u64)], secs: u64) -> i32 {
+    let Some(spec) = registry::property(id) else { return 2 };
+    let seed = seed_from_env();
+    let mut reported = 0;
+    for (ui, run) in stalled.iter().take(2) {
+        let Some(u) = spec.units.get(*ui) else { continue };
+        let case = u.world.case_json(seed, u.scenario, *run);
+        let fname = format!("{}/replays/{}-{}-{}-{}-{}-hang.json", report::verif_root(), id, seed, u.world.name(), u.scenario, run);
+        let replay = serde_json::json!({
+            "property": id, "invariant": format!("{}.hang", id), "key": "no-progress", "world": u.world.name(), "scenario": u.scenario,
+            "seed": seed, "run": run, "minimised": false, "detail": format!("a worker made no progress on this case for {} s: a library call does not terminate", secs), "case": case,
+        });
+        let _ = std::fs::create_dir_all(format!("{}/replays", report::verif_root()));
+        if std::fs::write(&fname, serde_json::to_string_pretty(&replay).unwrap()).is_err() {
+            continue;
+        }
+        // confirm: the same case alone, in a fresh process, must also fail to finish within a minute
+        let Ok(mut c) = Command::new(exe).arg("replay").arg(&fname).stdout(std::process::Stdio::null()).spawn() else { continue };
+        let t0 = std::time::Instant::now();
+        let mut finished = false;
+        while t0.elapsed() < std::time::Duration::from_secs(60) {
+            if let Ok(Some(_)) = c.try_wait() {
+                finished = true;
+                break;
+            }
+            std::thread::sleep(std::time::Duration::from_millis(200));
+        }
+        if finished {
+            let _ = std::fs::remove_file(&fname);
+            continue;
+        }
+        let _ = c.kill();
+        let _ = c.wait();
+        reported += 1;
+        println!("  violated {}.hang: no progress for {} s in world={} scenario={} run={} (confirmed: the case alone does not finish within 60 s)", id, secs, u.world.name(), u.scenario, run);
+        println!("VIOLATION property={} replay={}", id, fname);
+    }
+    if reported > 0 {
+        1
+    } else {
+        eprintln!("HARNESS-ERROR: worker stalled for {} s but no single case reproduces a hang (machine overloaded?)", secs);
+        2
+    }
+}
+
 fn supervise(id: &str, tier: &str, rest: &[String]) -> i32 {
     use std::os::unix::process::ExitStatusExt;
     let exe = std::env::current_exe().expect("current exe");
     let slots = format!("{}/sim/target/slots-{}-{}.bin", report::verif_root(), id, std::process::id());
-    let status = Command::new(&exe).arg("worker").arg(id).arg(tier).args(rest).arg("--slots").arg(&slots).status();
-    let status = match status {
-        Ok(s) => s,
+    let mut child = match Command::new(&exe).arg("worker").arg(id).arg(tier).args(rest).arg("--slots").arg(&slots).spawn() {
+        Ok(c) => c,
         Err(e) => {
             eprintln!("HARNESS-ERROR: cannot spawn worker: {}", e);
             return 2;
+        }
+    };
+    // watchdog: a worker thread that stays on one run for minutes is not making progress (a run takes milliseconds,
+    // the heaviest ones a few seconds): the library call it is in does not terminate
+    let stall_limit = std::time::Duration::from_secs(std::env::var("VERIF_STALL_SECS").ok().and_then(|s| s.parse().ok()).unwrap_or(300));
+    let mut seen: Vec<(Vec<u8>, std::time::Instant)> = Vec::new();
+    let mut stalled: Vec<(usize, u64)> = Vec::new();
+    let status = loop {
+        match child.try_wait() {
+            Ok(Some(st)) => break st,
+            Ok(None) => {}
+            Err(e) => {
+                eprintln!("HARNESS-ERROR: cannot wait for worker: {}", e);
+                return 2;
+            }
+        }
+        std::thread::sleep(std::time::Duration::from_millis(500));
+        let data = std::fs::read(&slots).unwrap_or_default();
+        for (i, chunk) in data.chunks_exact(24).enumerate() {
+            if seen.len() <= i {
+                seen.push((chunk.to_vec(), std::time::Instant::now()));
+                continue;
+            }
+            if seen[i].0 != chunk {
+                seen[i] = (chunk.to_vec(), std::time::Instant::now());
+            } else if u64::from_le_bytes(chunk[0..8].try_into().unwrap()) == 1 && seen[i].1.elapsed() > stall_limit {
+                stalled.push((u64::from_le_bytes(chunk[8..16].try_into().unwrap()) as usize, u64::from_le_bytes(chunk[16..24].try_into().unwrap())));
+            }
+        }
+        if !stalled.is_empty() {
+            let _ = child.kill();
+            let _ = child.wait();
+            let _ = std::fs::remove_file(&slots);
+            return report_hang(id, &exe, &stalled, stall_limit.as_secs());
         }
     };
     if let Some(code) = status.code() {
